@@ -331,6 +331,9 @@ def run_unit(name, thunk, on_result=None, max_paths=20000, require_obligations=T
     except Exception:
         res.error = traceback.format_exc()
     res.seconds = time.time() - t0
+    if E.STATS['cvc5_unsat'] or E.STATS['cvc5_unknown'] or E.STATS['cvc5_sat']:
+        res.extra['cvc5'] = dict(confirmed_unsat=E.STATS['cvc5_unsat'], no_answer=E.STATS['cvc5_unknown'], disagreed_sat=E.STATS['cvc5_sat'],
+                                 seconds=round(E.STATS['cvc5_s'], 2))
     res.queries = E.STATS['queries'] - q0
     res.solver_s = E.STATS['solver_s'] - s0
     res.unsupported = sorted(set(res.unsupported))
